@@ -67,7 +67,8 @@ def gen_script(r, rounds=(1, 2), max_edits=7, names=None, odd=True, sessions=("s
             else:
                 path = r.pick(sorted(tr.files))
                 ls = tr.files[path]
-                kind = r.weighted([(4, "ins"), (2, "del"), (3, "rep"), (2, "mod"), (1, "indent"), (1 if odd else 0, "odd")])
+                kind = r.weighted([(4, "ins"), (2, "del"), (3, "rep"), (2, "mod"), (1, "indent"), (1 if odd else 0, "odd"),
+                                   (2 if actor == "H" else 0, "wipe"), (2, "modchain")])
                 if kind == "ins" or not ls:
                     pos, n = r.range(0, len(ls)), r.range(1, 3)
                     tr.insert(r, path, pos, n, actor)
@@ -78,6 +79,22 @@ def gen_script(r, rounds=(1, 2), max_edits=7, names=None, odd=True, sessions=("s
                     tr.counter += 1
                     ls.insert(pos, [r.pick(ODD_LINES) + f" #{tr.counter}", actor])
                     d = ("odd", path, pos)
+                elif kind == "wipe":
+                    # a person rewrites EVERY line an agent wrote in this file (the file is human-only again)
+                    k_ = 0
+                    for i_, (t_, a_) in enumerate(list(ls)):
+                        if a_ != "H":
+                            ls[i_] = [tr.fresh(r), "H"]
+                            k_ += 1
+                    if not k_:
+                        continue
+                    d = ("wipe", path, k_)
+                elif kind == "modchain":
+                    # the same line touched again by this actor (A -> B -> A patterns arise from repeated draws)
+                    cand = [k for k, (t, a_) in enumerate(ls) if " mod" in t] or list(range(len(ls)))
+                    pos = r.pick(cand)
+                    tr.modify_inline(r, path, pos, actor)
+                    d = ("mod", path, pos)
                 elif kind == "del":
                     pos = r.below(len(ls))
                     n = r.range(1, min(2, len(ls) - pos))
